@@ -69,6 +69,15 @@ func c09Setup(prm c09Params) func(c *fw.Ctx, name string) explore.Setup {
 						var b [1]byte
 						r.Read(b[:])
 					}
+				case "halfread-reread":
+					// as halfread, then the application asks for the next message too early
+					st.p.Send(peerData(k, frame.OpBinary, false, fill(0xC0, 20)))
+					_, r, err := conn.Reader(bg)
+					if err == nil {
+						var b [1]byte
+						r.Read(b[:])
+					}
+					conn.Reader(bg) // fails: previous message not read to completion
 				case "closeread", "closeread-data":
 					ctx := conn.CloseRead(bg)
 					w.GoHarness("ctxwaiter", true, func() {
@@ -216,7 +225,7 @@ func c09Scenarios(tier string) []scenario {
 	if tier == "thorough" {
 		advs = append(advs, adv{"stallHeader", 2}, adv{"stallHeader", 3}, adv{"stallHeader", 5}, adv{"stallPayload", 1}, adv{"stallPayload", 50}, adv{"stallPayload", 99})
 	}
-	states := []string{"idle", "reader", "halfread", "closeread", "closeread-data", "writer", "ping"}
+	states := []string{"idle", "reader", "halfread", "halfread-reread", "closeread", "closeread-data", "writer", "ping"}
 	for _, k := range []connCfg{{Client: false}, {Client: true}} {
 		for _, a := range advs {
 			for _, s := range states {
